@@ -20,11 +20,11 @@ Definition call := (list nat * bop)%type.
 Definition history := list call.
 
 (* what a listing shows of each sub-edit: its class *)
-Inductive tag := TMatch | TReplace | TRemove | TInsert | TKvp | TFixed | TEditDist | TString | TOther.
+Inductive tag := TMatch | TReplace | TRemove | TInsert | TKvp | TFixed | TEditDist | TString | TMultiSet | TFixedDict | TOther.
 Definition tag_eqb (a b : tag) : bool :=
   match a, b with
   | TMatch, TMatch | TReplace, TReplace | TRemove, TRemove | TInsert, TInsert | TKvp, TKvp | TFixed, TFixed
-  | TEditDist, TEditDist | TString, TString | TOther, TOther => true
+  | TEditDist, TEditDist | TString, TString | TMultiSet, TMultiSet | TFixedDict, TFixedDict | TOther, TOther => true
   | _, _ => false
   end.
 
@@ -98,8 +98,14 @@ Fixpoint script_eqb (x y : edit) {struct x} : bool :=
 (* ---------------------------------------------------------------- observed cases *)
 (* one execution of the history on a fresh edit of the pair, then completion by the library's idiom
    (while e.valid and not e.is_complete() and e.tighten_bounds()) and serialisation of the complete nested script *)
+(* answers of code that is not modelled, as observed in one run: for the WeightedBipartiteMatcher between the node lists
+   (from_nodes, to_nodes): the number of tighten_bounds() calls bounds.make_distinct made on each edge, and the assignment
+   the solver returned.  Plain data (used by the correspondence only; holds_C05 does not look at it). *)
+Definition orc_data := list ((list tree * list tree) * (list (list nat) * list (nat * nat))).
+
 Record run := {
   r_quiet : bool;                 (* DEFAULT_PRINTER.quiet (library runs) / --no-status (command line runs) *)
+  r_orc : option orc_data;        (* the oracle answers observed in this run; None: ambiguous (one key, two answers) *)
   r_outs : list outcome;          (* one per call of the history, in order; ends with the RErr of a call that raised *)
   r_final : option edit           (* the complete script with all own costs; None: completion or serialisation raised *)
 }.
@@ -112,6 +118,7 @@ Record case := {
   c_a : tree; c_b : tree;
   c_hist : history;
   c_canon : option edit;          (* canonical drive: no history, quiet printer; None: it raised *)
+  c_canon_orc : option orc_data;  (* the oracle answers observed in the canonical drive *)
   c_timeout : bool;               (* the wall-clock guard fired *)
   c_runs : list run;
   c_views : list view
@@ -149,22 +156,28 @@ Definition holds_C05 (c : case) : bool :=
   end.
 
 (* transport encoding of many histories on one pair: the scripts are sent once, in a table *)
-Record prun := { pr_quiet : bool; pr_outs : list outcome; pr_final : option nat }.
+Record prun := { pr_quiet : bool; pr_orc : option nat; pr_outs : list outcome; pr_final : option nat }.
 Record pcase := {
   pc_a : tree; pc_b : tree;
   pc_scripts : list edit;
+  pc_orcs : list orc_data;
   pc_canon : option nat;
+  pc_canon_orc : option nat;
   pc_timeout : bool;
   pc_views : list view;
   pc_items : list (history * list prun)
 }.
 Definition lookup_script (tbl : list edit) (o : option nat) : option edit :=
   match o with Some i => nth_error tbl i | None => None end.
+Definition lookup_orc (tbl : list orc_data) (o : option nat) : option orc_data :=
+  match o with Some i => nth_error tbl i | None => None end.
 Definition expand (pc : pcase) : list case :=
   map (fun it => {| c_a := pc_a pc; c_b := pc_b pc; c_hist := fst it;
                     c_canon := lookup_script (pc_scripts pc) (pc_canon pc);
+                    c_canon_orc := lookup_orc (pc_orcs pc) (pc_canon_orc pc);
                     c_timeout := pc_timeout pc;
-                    c_runs := map (fun r => {| r_quiet := pr_quiet r; r_outs := pr_outs r;
+                    c_runs := map (fun r => {| r_quiet := pr_quiet r; r_orc := lookup_orc (pc_orcs pc) (pr_orc r);
+                                               r_outs := pr_outs r;
                                                r_final := lookup_script (pc_scripts pc) (pr_final r) |}) (snd it);
                     c_views := pc_views pc |})
       (pc_items pc).
